@@ -100,6 +100,26 @@ def bban_for(row: dict, rng: random.Random, mode: str = "random") -> str | None:
     return "".join(out)
 
 
+def echo_bbans(row: dict, rng: random.Random) -> list[str]:
+    """Structure-conforming BBANs that repeat a piece of their own IBAN prefix (country code + "00",
+    country code + the check digits): what a text substitution keyed by the prefix would hit twice."""
+    cls = row_classes(row)
+    if cls is None:
+        return []
+    cc = "".join(chr(c) for c in row["key"])
+    spots = [p for p in range(len(cls) - 3)
+             if cls[p] in (97, 99) and cls[p + 1] in (97, 99) and cls[p + 2] in (110, 99) and cls[p + 3] in (110, 99)]
+    out = []
+    for p in ([spots[0], spots[-1]] if spots else []):
+        base = bban_for(row, rng)
+        b = base[:p] + cc + "00" + base[p + 4:]
+        out.append(b)
+        for _ in range(3):          # towards a BBAN that contains its own country code + check digits
+            b = b[:p] + cc + check_digits(cc, b) + b[p + 4:]
+        out.append(b)
+    return list(dict.fromkeys(out))
+
+
 def cc_of(row: dict) -> str:
     return "".join(chr(c) for c in row["key"])
 
